@@ -146,6 +146,7 @@ CLOCK_TYS = ("std::time::Instant", "u128")
 def _clock_fields(facts, ty):
     """[(field index, name, ty)] of the Instant / u128 fields of a struct type (a deadline bundle)."""
     ty = ty[5:] if ty.startswith("&mut ") else (ty[1:] if ty.startswith("&") else ty)
+    ty = ty.split("<")[0]        # `SearchContext<'_>` is the struct `SearchContext`
     try:
         vs = facts.adt(ty)["variants"]
     except Exception:
@@ -187,12 +188,44 @@ def own_clock(b):
     return out
 
 
-def _own_clock_call(b, e):
-    """e is `out_of_time(start, t)` on the function's own clock parameters."""
-    if e[0] != "call" or e[1] != OOT or len(e[2]) != 2:
-        return False
+def _elapsed_ms_since(e):
+    """(start expr, location of the clock read) if e is "milliseconds elapsed since `start`":
+    `Instant::now().duration_since(start).as_millis()` / `start.elapsed().as_millis()`."""
+    e = _unref(e)
+    if not (e[0] == "call" and e[1].endswith("Duration::as_millis") and e[2]):
+        return None
+    d = _unref(e[2][0])
+    if d[0] != "call":
+        return None
+    if d[1].endswith("Instant::duration_since") and len(d[2]) == 2:
+        now = _unref(d[2][0])
+        if now[0] == "call" and now[1] == "std::time::Instant::now":
+            return _unref(d[2][1]), now[3]
+    if d[1].endswith("Instant::elapsed") and len(d[2]) == 1:
+        return _unref(d[2][0]), d[3]
+    return None
+
+
+def clock_test(e, truth=True):
+    """The boolean `e` (having the value `truth`) is a verdict of the deadline test, spelled as a call
+    of out_of_time(start, t) or as the comparison it stands for (`elapsed_ms(start) >= t`, flipped or
+    negated: what is left when the predicate is a method of a clock object and gets inlined).
+    Returns (expired, start expr, allowance expr, location of the clock read) or None."""
+    if e[0] == "call" and e[1] == OOT and len(e[2]) == 2:
+        return truth, _unref(e[2][0]), _unref(e[2][1]), e[3]
+    for neg in (False, True):
+        c = _cmp_norm(("un", "Not", e) if neg else e)
+        if c is not None and c[0] in ("Ge", "Gt"):
+            el = _elapsed_ms_since(c[1])
+            if el is not None and el[1] is not None:
+                return (truth != neg), el[0], _unref(c[2]), el[1]
+    return None
+
+
+def _own_clock_test(b, ct):
+    """The clock test is on the function's own deadline (its Instant / u128 parameters or bundle)."""
     own = own_clock(b)
-    return len(own) == 2 and _unref(e[2][0]) == own["std::time::Instant"] and _unref(e[2][1]) == own["u128"]
+    return ct is not None and len(own) == 2 and ct[1] == own["std::time::Instant"] and ct[2] == own["u128"]
 
 
 def _straight_from_entry(b, bb):
@@ -210,11 +243,12 @@ def ot_edges(b, ex, own_only=True):
     """CFG edges that decide an evaluation of out_of_time(start, t): the switch may test the call
     itself, its negation, or a named / `&&`-composed boolean built from it (wa/implied.py).
     Yields (switch_bb, target, truth, call_bb, fresh_blocks, lastdefs, own)."""
-    for s, tg, (e, truth), fresh, lastdefs in implying_edges(b, ex, lambda e, t: e[0] == "call" and e[1] == OOT):
-        own = _own_clock_call(b, e)
+    for s, tg, (e, truth), fresh, lastdefs in implying_edges(b, ex, lambda e, t: clock_test(e, t) is not None):
+        ct = clock_test(e, truth)
+        own = _own_clock_test(b, ct)
         if own_only and not own:
             continue
-        yield s, tg, truth, e[3][0], fresh, lastdefs, own
+        yield s, tg, ct[0], ct[3][0], fresh, lastdefs, own
 
 
 def ot_guards(b, ex):
@@ -454,25 +488,36 @@ def r7_2(ctx):
             ctx.ob("%s:call#%d:same-deadline" % (fn.split("::")[-1], k), bool(ok), b.where(b.term_loc(bb)),
                    "sub-search is given (%s); must be this search's own (start, time allowance) so that every node and the root agree on expiry" % (
                        ", ".join(show_expr(given[ty], b) for ty in sorted(given))))
-    # out_of_time is a pure comparison of a monotonic clock with its argument
-    ob = f.body(OOT)
-    callees = sorted({callee_of(t) for _, t in ob.iter_calls()})
-    allowed = {"std::time::Instant::now", "std::time::Instant::duration_since", "std::time::Duration::as_millis",
-               "std::time::Instant::elapsed"}
-    ctx.ob("out_of_time:pure-clock-comparison", set(callees) <= allowed and bool(callees), ob.where((0, 0)),
-           "callees: %s" % callees)
-    # and its verdict is `elapsed >= allowance` of exactly its two parameters (monotone in the clock)
-    oex = Exprs(ob)
-    rets = [oex.rvalue(st["rv"], loc) for loc, st in ob.iter_stmts() if st["k"] == "assign" and st["place"]["local"] == 0]
-    okc = False
-    if len(rets) == 1:
-        c = _cmp_norm(rets[0])
-        tp, sp = params_by_type(ob, "u128"), params_by_type(ob, "std::time::Instant")
-        if c is not None and c[0] in ("Ge", "Gt") and tp and sp and strip_refs(c[2]) == ("arg", tp[0]):
-            start = ("arg", sp[0])
-            okc = any(x[0] == "call" and ((x[1].endswith("duration_since") and start in [strip_refs(y) for y in x[2][1:]]) or
-                                          (x[1].endswith("Instant::elapsed") and strip_refs(x[2][0]) == start)) for x in subexprs(c[1]))
-    ctx.ob("out_of_time:elapsed>=allowance", okc, ob.where((0, 0)), "returns `%s`" % (show_expr(rets[0], ob)[:90] if rets else "?"))
+    if f.has_body(OOT):
+        # out_of_time is a pure comparison of a monotonic clock with its argument
+        ob = f.body(OOT)
+        callees = sorted({callee_of(t) for _, t in ob.iter_calls()})
+        allowed = {"std::time::Instant::now", "std::time::Instant::duration_since", "std::time::Duration::as_millis",
+                   "std::time::Instant::elapsed"}
+        ctx.ob("out_of_time:pure-clock-comparison", set(callees) <= allowed and bool(callees), ob.where((0, 0)),
+               "callees: %s" % callees)
+        # and its verdict is `elapsed >= allowance` of exactly its two parameters (monotone in the clock)
+        oex = Exprs(ob)
+        rets = [oex.rvalue(st["rv"], loc) for loc, st in ob.iter_stmts() if st["k"] == "assign" and st["place"]["local"] == 0]
+        okc = False
+        if len(rets) == 1:
+            c = _cmp_norm(rets[0])
+            tp, sp = params_by_type(ob, "u128"), params_by_type(ob, "std::time::Instant")
+            if c is not None and c[0] in ("Ge", "Gt") and tp and sp and strip_refs(c[2]) == ("arg", tp[0]):
+                start = ("arg", sp[0])
+                okc = any(x[0] == "call" and ((x[1].endswith("duration_since") and start in [strip_refs(y) for y in x[2][1:]]) or
+                                              (x[1].endswith("Instant::elapsed") and strip_refs(x[2][0]) == start)) for x in subexprs(c[1]))
+        ctx.ob("out_of_time:elapsed>=allowance", okc, ob.where((0, 0)), "returns `%s`" % (show_expr(rets[0], ob)[:90] if rets else "?"))
+    else:
+        # the predicate is not a function of its own (a method of a clock object, inlined): the entry
+        # test of alpha_beta_search was recognised as the comparison `elapsed_ms(start) >= allowance`
+        # of the node's own deadline, which is what these two obligations state
+        ab = f.body(ABS)
+        aex = Exprs(ab)
+        inl = [ct for s_, tg, (e, truth), fresh, lastdefs in implying_edges(ab, aex, lambda e, t: clock_test(e, t) is not None)
+               for ct in [clock_test(e, truth)] if _own_clock_test(ab, ct) and _straight_from_entry(ab, ct[3][0])]
+        ctx.ob("out_of_time:pure-clock-comparison", bool(inl), ab.where((0, 0)), "the deadline test is the inlined comparison of the monotonic clock with the allowance")
+        ctx.ob("out_of_time:elapsed>=allowance", bool(inl), ab.where((0, 0)), "the deadline test is `elapsed_ms(start) >= allowance` on the node's own deadline")
     ctx.floor("sentinel sites", n, 3)
 
 
@@ -1176,6 +1221,48 @@ NONDET = ("std::time::Instant::now", "std::time::Instant::elapsed", "std::time::
           "rand_chacha::rand_core::SeedableRng::from_entropy", "SeedableRng::from_os_rng", "from_entropy")
 
 
+_CLOCK_CHAIN = ("Instant::duration_since", "Duration::as_millis", "Instant::elapsed")
+
+
+def _clock_reads_only_decide_deadline(b):
+    """Every clock read in this body feeds only the deadline test on the function's own deadline
+    (`elapsed_ms(start) >= allowance`, the inlined form of out_of_time) and nothing else."""
+    ex = Exprs(b)
+    reads = {b.term_loc(bb) for bb, t in b.iter_calls() if (callee_of(t) or "") in CLOCK_READS}
+    if not reads:
+        return False
+    roots = []
+    for s_ in b.normal:
+        if s_ in b.reachable and b.term(s_)["k"] == "switch":
+            roots.append(ex.switch_discr(s_))
+    rd = b.reaching()
+    for loc, st in b.iter_stmts():
+        if st["k"] != "assign":
+            continue
+        l = st["place"]["local"]
+        if not st["place"]["proj"] and l not in b.names and l != 0 and len(rd.all_sites(l)) == 1:
+            continue        # a single-definition temporary: seen through by value numbering
+        roots.append(ex.rvalue(st["rv"], loc))
+    for bb, t in b.iter_calls():
+        c = callee_of(t) or ""
+        if c in CLOCK_READS or any(c.endswith(x) for x in _CLOCK_CHAIN):
+            continue
+        roots += list(ex.call_args(bb))
+    covered = set()
+    for r in roots:
+        mine = {x[3] for x in subexprs(r) if x[0] == "call" and x[1] in CLOCK_READS and x[3] in reads}
+        if not mine:
+            continue
+        e = r
+        while e[0] in ("ref", "deref") or (e[0] == "un" and e[1] == "Not"):
+            e = e[2] if e[0] == "un" else e[1]
+        ct = clock_test(e)
+        if not _own_clock_test(b, ct) or mine != {ct[3]}:
+            return False
+        covered |= mine
+    return covered == reads
+
+
 def r7_5(ctx):
     """Clock-only nondeterminism: in cone(get_best_move) the only nondeterministic inputs are the
     clock reads of out_of_time (decision-relevant) and of send_search_info (output field only)."""
@@ -1191,7 +1278,7 @@ def r7_5(ctx):
                 continue
             if any(c.startswith(p) or p in c for p in NONDET):
                 n += 1
-                ok = c in CLOCK_READS and fn in (OOT, SEND_INFO)
+                ok = c in CLOCK_READS and (fn in (OOT, SEND_INFO) or _clock_reads_only_decide_deadline(f.body(fn)))
                 ctx.ob("cone(get_best_move):%s:%s" % (fn.split("::")[-1], c.split("::")[-1]), ok, f.body(fn).file,
                        "`%s` in %s: the search may consult nothing nondeterministic but the clock (in out_of_time, and for the `time` field of info lines)" % (c, fn))
     # the seed of the hasher is a constant
@@ -1267,7 +1354,7 @@ def r11_5(ctx):
                 else:
                     others.append(show_expr(d0, b)[:60])
                 continue
-            if d0[0] == "call" and d0[1] in (OOT, IS3):
+            if (d0[0] == "call" and d0[1] == IS3) or clock_test(d0) is not None:
                 continue
             c = _cmp_norm(d0 if truth else ("un", "Not", d0))
             if c is not None:
